@@ -8,7 +8,13 @@
    command ([write_outs_content], [run_command_ok], [on_complete_ideal], [execute_frame/ok]);
    the task of one target ([process_target_cases], [hit_case], [miss_case] => [step_post]); the
    walk ([Inv], [inv_step], [process_node_post], [walk_inv]); one build ([build_good]); histories
-   ([hinv], [step_hinv]); the C01 theorems; two concrete histories (refutation, non-vacuity). *)
+   ([hinv], [step_hinv]); the C01 theorems; concrete histories (refutation, non-vacuity, a no-cache
+   target in the middle of a chain).
+
+   No-cache targets are part of the theorems: such a target never takes the hit branch
+   ([process_target_cases]: the hit branch carries [td_nocache t = false]), always executes, stores the
+   output-less record [res_of] under its key and adds nothing to the CAS ([cache_after]); its dependants
+   read its outputs from the workspace, where the execution of this very build has just put them. *)
 From Coq Require Import List Ascii Bool Arith Lia Permutation.
 From Grog Require Import Str Label HashKey HashKey_proofs Build Build_proofs Build_ideal.
 Import ListNotations.
@@ -192,6 +198,19 @@ Proof.
   - intros o c Hin. rewrite Eo in Hin. eapply ideal_outs_T; eauto.
   - exact Eh.
   - unfold ideal_key_at. rewrite Hn. unfold ideal_key_of. rewrite Ed, Ek. reflexivity.
+Qed.
+
+Lemma ideal_target_nc s acc t d : ideal_target H s acc t = Some d -> i_nc d = td_nocache t.
+Proof.
+  unfold ideal_target. destruct (ideal_deps s acc (td_deps t)) as [deps|]; [|discriminate].
+  destruct (beh_ok t); [|discriminate]. intro E. inversion E; subst; clear E. reflexivity.
+Qed.
+
+Lemma ideal_entry_nc s j t d :
+  node_at s j = Some (NTarget t) -> nth j (ideal H s) None = Some d -> i_nc d = td_nocache t.
+Proof.
+  intros Hn Hd. rewrite (ideal_nth _ _ _ Hn) in Hd. cbn [ideal_entry] in Hd.
+  exact (ideal_target_nc _ _ _ _ Hd).
 Qed.
 
 (* ================================================================== output paths *)
@@ -523,12 +542,15 @@ Proof.
 Qed.
 
 (* ================================================================== OnTargetComplete *)
+(* the blobs of a no-cache target are not stored *)
+Definition cas_after (d : idata) (cas : list (str * str)) : list (str * str) :=
+  if i_nc d then cas else fold_left cas_step (i_outs d) cas.
+
 Definition cache_after (key : str) (d : idata) (c : cache) : cache :=
-  mkCache (results_set key (res_of H d) (c_results c))
-          (fold_left cas_step (i_outs d) (c_cas c)) (c_taint c).
+  mkCache (results_set key (res_of H d) (c_results c)) (cas_after d (c_cas c)) (c_taint c).
 
 Lemma on_complete_ideal cfg i t key b d :
-  cfg_cache cfg = true -> td_nocache t = false ->
+  cfg_cache cfg = true -> i_nc d = td_nocache t ->
   map fst (i_outs d) = td_outs t ->
   i_ohash d = ideal_ohash H t key (i_outs d) ->
   (forall o x, In (o, x) (i_outs d) -> ws_get (out_path t o) (w_ws (b_world b)) = PFile x) ->
@@ -538,7 +560,10 @@ Lemma on_complete_ideal cfg i t key b d :
 Proof.
   intros Hc Hnc Hfst Hoh Hws. unfold on_complete.
   rewrite <- Hfst at 1. rewrite (present_digests_ideal t _ (i_outs d) Hws).
-  rewrite Hnc, Hc. cbn [orb negb].
+  rewrite Hc. cbn [negb]. rewrite orb_false_r.
+  destruct (td_nocache t) eqn:Enc.
+  { unfold cache_after, cas_after, res_of. rewrite Hnc, Hoh. unfold ideal_ohash. rewrite Enc.
+    rewrite map_map. reflexivity. }
   assert (Hres :
     (match td_outs t with
      | [] => (mkRes key [], c_cas (b_cache b))
@@ -547,8 +572,8 @@ Proof.
                 (map (fun e => (out_def (fst (fst e)), snd (fst e))) (map dg_entry (i_outs d))),
           fold_left (fun cas e => cas_add (snd (fst e)) (snd e) cas) (map dg_entry (i_outs d))
                     (c_cas (b_cache b)))
-     end) = (res_of H d, fold_left cas_step (i_outs d) (c_cas (b_cache b)))).
-  { unfold res_of. rewrite Hoh. unfold ideal_ohash.
+     end) = (res_of H d, cas_after d (c_cas (b_cache b)))).
+  { unfold res_of, cas_after. rewrite Hnc, Hoh. unfold ideal_ohash. rewrite Enc.
     destruct (td_outs t) as [|o0 outs] eqn:Eo.
     - destruct (i_outs d); [reflexivity | discriminate].
     - rewrite !map_map, fold_left_map. reflexivity. }
@@ -653,20 +678,20 @@ Proof.
 Qed.
 
 Lemma execute_ok cfg s i t key tainted b b' reads :
-  null (td_cmd t) = false -> cfg_cache cfg = true -> td_nocache t = false ->
+  null (td_cmd t) = false -> cfg_cache cfg = true ->
   i < rt_len b ->
   NoDup (map (out_path t) (td_outs t)) ->
   dep_parts s (w_ws (b_world b)) (td_deps t) = Some reads ->
   execute H cfg s i t key tainted b = (true, b') ->
   beh_ok t = true /\
-  forall d, i_outs d = ideal_outs s t 0 (td_outs t) reads ->
+  forall d, i_outs d = ideal_outs s t 0 (td_outs t) reads -> i_nc d = td_nocache t ->
             i_ohash d = ideal_ohash H t key (i_outs d) ->
     c_results (b_cache b') = results_set key (res_of H d) (c_results (b_cache b)) /\
-    c_cas (b_cache b') = fold_left cas_step (i_outs d) (c_cas (b_cache b)) /\
+    c_cas (b_cache b') = cas_after d (c_cas (b_cache b)) /\
     rt_ohash (get_rt b' i) = Some (i_ohash d) /\
     forall o x, In (o, x) (i_outs d) -> ws_get (out_path t o) (w_ws (b_world b')) = PFile x.
 Proof.
-  intros Hcmd Hcc Hnc Hi Hnd Hdp. unfold execute. rewrite Hcmd. autorewrite with bst.
+  intros Hcmd Hcc Hi Hnd Hdp. unfold execute. rewrite Hcmd. autorewrite with bst.
   destruct (run_command s t (b_world b)) as [w'|] eqn:Er; [|discriminate].
   destruct (check_ok w' t) eqn:Eck; cbn [negb]; [|discriminate].
   destruct (on_complete H cfg i t key (set_world (add_exec b (td_label t)) w')) as [b2|] eqn:Eoc;
@@ -675,7 +700,7 @@ Proof.
   destruct (on_complete_some_present _ _ _ _ _ _ Eoc) as [ds Hds]. autorewrite with bst in Hds.
   destruct (run_command_ok s t _ w' reads Er Hdp Hnd Eck (present_digests_some _ _ _ _ Hds))
     as [Hbeh Hcont].
-  split; [exact Hbeh|]. intros d Hout Hoh.
+  split; [exact Hbeh|]. intros d Hout Hnc Hoh.
   rewrite (on_complete_ideal cfg i t key _ d Hcc Hnc) in Eoc.
   - inversion Eoc; subst b2; clear Eoc.
     assert (Hi' : i < rt_len (set_cache (set_world (add_exec b (td_label t)) w')
@@ -715,21 +740,31 @@ Proof.
     apply Permutation_map. exact Hp.
 Qed.
 
+Lemma nocache_hash_perm l l' :
+  Permutation l l' -> nocache_output_hash H l = nocache_output_hash H l'.
+Proof.
+  intro Hp. unfold nocache_output_hash. f_equal. f_equal. apply sort_strs_canonical.
+  apply Permutation_map. exact Hp.
+Qed.
+
 Lemma same_outs_ohash t t' d d' :
+  td_nocache t = td_nocache t' ->
   map fst (i_outs d) = td_outs t -> map fst (i_outs d') = td_outs t' ->
   NoDup (td_outs t) -> NoDup (td_outs t') ->
   i_ohash d = ideal_ohash H t (i_key d) (i_outs d) ->
   i_ohash d' = ideal_ohash H t' (i_key d') (i_outs d') ->
   i_key d = i_key d' -> same_outs d d' -> i_ohash d = i_ohash d'.
 Proof.
-  intros Hf Hf' Hnd Hnd' Ho Ho' Hk Hsame.
+  intros Hnc Hf Hf' Hnd Hnd' Ho Ho' Hk Hsame.
   assert (Hp : Permutation (i_outs d) (i_outs d')).
   { apply NoDup_Permutation.
     - apply NoDup_map_fst_pairs. rewrite Hf. exact Hnd.
     - apply NoDup_map_fst_pairs. rewrite Hf'. exact Hnd'.
     - intros [o x]. apply Hsame. }
-  rewrite Ho, Ho'. unfold ideal_ohash. rewrite <- Hf, <- Hf', Hk.
-  apply ideal_ohash_perm. exact Hp.
+  rewrite Ho, Ho'. unfold ideal_ohash. rewrite <- Hnc.
+  destruct (td_nocache t).
+  - apply nocache_hash_perm. apply Permutation_map. exact Hp.
+  - rewrite <- Hf, <- Hf', Hk. apply ideal_ohash_perm. exact Hp.
 Qed.
 
 (* ================================================================== cache soundness is kept *)
@@ -740,12 +775,14 @@ Proof. intros Hr Hc [Hs Hres]. unfold cache_sound. rewrite Hr, Hc. split; assump
 Lemma cache_sound_after V c c' s i d :
   cache_sound H V c -> In s V -> is_target s i -> nth i (ideal H s) None = Some d ->
   c_results c' = results_set (i_key d) (res_of H d) (c_results c) ->
-  c_cas c' = fold_left cas_step (i_outs d) (c_cas c) ->
+  c_cas c' = cas_after d (c_cas c) ->
   cache_sound H V c'.
 Proof.
   intros [Hs Hres] HsV [t Ht] Hd Hr Hc. unfold cache_sound. rewrite Hr, Hc.
   destruct (ideal_entry_facts s i t d Ht Hd) as (_ & HT & _ & _).
-  destruct (cas_fold_sound (i_outs d) (c_cas c) Hs HT) as [Hs' Hhas].
+  assert (Hs' : cas_sound H (cas_after d (c_cas c))).
+  { unfold cas_after. destruct (i_nc d); [exact Hs|].
+    exact (proj1 (cas_fold_sound (i_outs d) (c_cas c) Hs HT)). }
   split; [exact Hs'|]. intros k r Hl.
   destruct (str_eq_dec (i_key d) k) as [<-|Hne].
   - rewrite rlookup_set_same in Hl. inversion Hl; subst r.
@@ -806,7 +843,7 @@ Lemma process_target_cases cfg s i t b dh :
   let key := change_key H (pkg_fs s t) (state_of t dh) in
   let bk := set_rt b i (mkRt (Some key) (rt_ohash (get_rt b i)) (rt_loaded (get_rt b i))
                              (rt_status (get_rt b i))) in
-  (exists res b1, rlookup key (c_results (b_cache b)) = Some res /\
+  (exists res b1, rlookup key (c_results (b_cache b)) = Some res /\ td_nocache t = false /\
                   load_outputs H i t res bk = (true, b1) /\
                   process_target H cfg s i t b = mark b1 i THit) \/
   (exists b1 tainted ok b3,
@@ -818,9 +855,13 @@ Proof.
   change (b_cache bk) with (b_cache b).
   destruct (rlookup key (c_results (b_cache b))) as [res|] eqn:Er.
   - destruct (negb (label_in (td_label t) (c_taint (b_cache b))) && negb (td_nocache t) &&
-              cfg_cache cfg && check_ok (b_world bk) t).
+              cfg_cache cfg && check_ok (b_world bk) t) eqn:Econd.
     + destruct (load_outputs H i t res bk) as [hit b1] eqn:El. destruct hit.
-      * left. exists res, b1. auto.
+      * left. exists res, b1. split; [reflexivity|]. split; [|auto].
+        apply andb_true_iff in Econd. destruct Econd as [Econd _].
+        apply andb_true_iff in Econd. destruct Econd as [Econd _].
+        apply andb_true_iff in Econd. destruct Econd as [_ Econd].
+        apply negb_true_iff in Econd. exact Econd.
       * right. cbn [negb].
         destruct (execute H cfg s i t key (label_in (td_label t) (c_taint (b_cache b))) b1)
           as [ok b3] eqn:Ee.
@@ -840,12 +881,11 @@ Qed.
 
 (* ================================================================== one step of the walk *)
 Lemma plain_target s i t :
-  plain s -> node_at s i = Some (NTarget t) -> null (td_cmd t) = false /\ td_nocache t = false.
+  plain s -> node_at s i = Some (NTarget t) -> null (td_cmd t) = false.
 Proof.
   unfold plain, node_at. intros Hp Hn. apply nth_error_In in Hn.
   rewrite forallb_forall in Hp. specialize (Hp _ Hn). cbn [plain_node] in Hp.
-  apply andb_true_iff in Hp. destruct Hp as [H1 H2].
-  apply negb_true_iff in H1. apply negb_true_iff in H2. auto.
+  apply negb_true_iff in Hp. exact Hp.
 Qed.
 
 Section Step.
@@ -895,21 +935,26 @@ Proof.
 Qed.
 
 Lemma hit_case res b1 :
-  rlookup key (c_results (b_cache b)) = Some res ->
+  rlookup key (c_results (b_cache b)) = Some res -> td_nocache t = false ->
   load_outputs H i t res bk = (true, b1) ->
   step_post V s i t b (mark b1 i THit).
 Proof.
-  intros Hlk Hlo.
+  intros Hlk Hnc Hlo.
   destruct step_deps as (deps & Hdeps & Hkeq & Hkey & Hsrc & Hfiles).
   destruct Hcs as [Hcas Hres].
   destruct (Hres key res Hlk) as (s' & j' & d' & Hs' & Htj' & Hd' & Hk' & Hr').
-  destruct (V_faithful s s' i j' key d' s_in Hs' Hkey Htj' Hd' (eq_sym Hk')) as (d & Hd & Hsame).
+  destruct (V_faithful s s' i j' key d' s_in Hs' Hkey Htj' Hd' (eq_sym Hk')) as (d & Hd & Hsame & Hncd).
   destruct bk_facts as (Hbl & Hbi & Hblen & Hbrt).
   destruct (load_outputs_spec i t res bk true b1 Hbl Hbi Hlo) as (Hc1 & Hl1 & Hrt1 & Hfr1 & Hok1).
   destruct (Hok1 eq_refl) as [Hoh1 Hla].
   destruct Htj' as [t' Ht'].
   destruct (ideal_entry_facts s' j' t' d' Ht' Hd') as (Hfst' & HT' & Hoh' & Hka').
   destruct (ideal_entry_facts s i t d Hn Hd) as (Hfst & HT & Hoh & Hka).
+  pose proof (ideal_entry_nc s' j' t' d' Ht' Hd') as Hnc'.
+  pose proof (ideal_entry_nc s i t d Hn Hd) as Hncd0.
+  assert (Hnct : td_nocache t = td_nocache t') by congruence.
+  assert (Hres' : r_outs res = map res_entry (i_outs d')).
+  { rewrite Hr'. unfold res_of. cbn [r_outs]. rewrite <- Hncd, Hncd0, Hnc. reflexivity. }
   destruct (V_ok s' Hs') as [Hno' _]. destruct (V_ok s s_in) as [Hno _].
   pose proof (no_overwrite_own s' j' t' Hno' Ht') as Hnd'.
   pose proof (no_overwrite_own s i t Hno Hn) as Hnd.
@@ -919,7 +964,7 @@ Proof.
     - exact Hcas.
     - exact HT'.
     - rewrite <- (map_map fst o_path). rewrite Hfst'. apply (own_paths_opath t'). exact Hnd'.
-    - rewrite Hr' in Hla. exact Hla. }
+    - rewrite Hres' in Hla. exact Hla. }
   assert (Hkd : i_key d = key) by congruence.
   unfold step_post. autorewrite with bst.
   split; [congruence|].
@@ -948,7 +993,7 @@ Proof.
   destruct step_deps as (deps & Hdeps & Hkeq & Hkey & Hsrc & Hfiles).
   destruct bk_facts as (Hbl & Hbi & Hblen & Hbrt).
   destruct (V_ok s s_in) as [Hno Hpl].
-  destruct (plain_target s i t Hpl Hn) as [Hcmd Hnc].
+  pose proof (plain_target s i t Hpl Hn) as Hcmd.
   pose proof (no_overwrite_own s i t Hno Hn) as Hnd.
   assert (F1 : b_cache b1 = b_cache b /\ rt_len b1 = rt_len b /\
                (forall j, j <> i -> get_rt b1 j = get_rt b j) /\
@@ -971,13 +1016,14 @@ Proof.
     { apply (dep_parts_ideal s i _ (ideal_upto H s i) _ deps Hdeps Hsrc).
       apply (dep_files_frame s i t (w_ws (b_world b))); auto. }
     destruct (execute_ok cfg s i t key tainted b1 b3 (ideal_reads deps)
-                Hcmd cfg_cached Hnc ltac:(lia) Hnd Hdp Hex) as [Hbeh Hpost].
+                Hcmd cfg_cached ltac:(lia) Hnd Hdp Hex) as [Hbeh Hpost].
     destruct (ideal_target_of_deps s (ideal_upto H s i) t deps Hdeps Hbeh)
       as (d & Hd & Hdk & Hdo & Hdh').
     assert (Hd' : nth i (ideal H s) None = Some d)
       by (rewrite (ideal_nth s i _ Hn); exact Hd).
     assert (Hkd : i_key d = key) by congruence.
-    destruct (Hpost d Hdo) as (Hres3 & Hcas3 & Hoh3 & Hws3); [rewrite <- Hkd; exact Hdh'|].
+    destruct (Hpost d Hdo) as (Hres3 & Hcas3 & Hoh3 & Hws3);
+      [exact (ideal_target_nc _ _ _ _ Hd) | rewrite <- Hkd; exact Hdh'|].
     split.
     + apply (cache_sound_after V (b_cache b) (b_cache b3) s i d); auto.
       * exists t; exact Hn.
@@ -993,7 +1039,7 @@ Qed.
 Lemma process_target_step : step_post V s i t b (process_target H cfg s i t b).
 Proof.
   destruct (process_target_cases cfg s i t b dh cfg_all Hdh)
-    as [(res & b1 & Hlk & Hlo & ->)|(b1 & tainted & ok & b3 & Hb1 & Hex & ->)].
+    as [(res & b1 & Hlk & Hnc & Hlo & ->)|(b1 & tainted & ok & b3 & Hb1 & Hex & ->)].
   - apply hit_case with (res := res); assumption.
   - apply miss_case with (b1 := b1) (tainted := tainted); assumption.
 Qed.
@@ -1510,7 +1556,7 @@ Proof.
     vm_compute in Hk; vm_compute in Hd2;
     injection Hk as <-; injection Hd2 as <-;
     try (exfalso; vm_compute in Hkeq; discriminate Hkeq);
-    (eexists; split; [vm_compute; reflexivity | intros o c; reflexivity]).
+    (eexists; split; [vm_compute; reflexivity | split; [intros o c; reflexivity | reflexivity]]).
 Qed.
 
 Lemma nv_hist_ok : hist_ok idH nv_ops.
@@ -1572,4 +1618,70 @@ Proof.
   split; [vm_compute; intro E; discriminate E|].
   split; [vm_compute; intro E; discriminate E|].
   vm_compute. intro E. discriminate E.
+Qed.
+
+(* --- a no-cache target in the middle of a chain meets the guards: a; b (no-cache) depends on a; c depends
+   on b.  Build, edit a's input, build (everything re-executes), build again: a and c are served from the
+   cache, b (never restored) runs again and, its outputs being what they were, hands c the same output hash *)
+Definition nc_a : tdef :=
+  mkTD (mkLabel (lit "p") (lit "a")) (lit "c") [] [lit "f"] [mkOut OFile (lit "oa")]
+       [] [] false false BNormal false.
+Definition nc_b : tdef :=
+  mkTD (mkLabel (lit "p") (lit "b")) (lit "c") [] [] [mkOut OFile (lit "ob"); mkOut ODir (lit "db")]
+       [0] [] true false BNormal false.
+Definition nc_c : tdef :=
+  mkTD (mkLabel (lit "p") (lit "c")) (lit "c") [] [] [mkOut OFile (lit "oc")]
+       [1] [] false false BNormal false.
+Definition nc_s (x : str) : sources :=
+  mkSrc [NTarget nc_a; NTarget nc_b; NTarget nc_c] [(lit "p/f", x)].
+Definition nc_ops : list op :=
+  [OpSources (nc_s (lit "1")); OpBuild c_all [2]; OpSources (nc_s (lit "2")); OpBuild c_all [2]].
+
+Lemma nc_src_ok x : src_ok (nc_s x).
+Proof. split; [nodup_tac | reflexivity]. Qed.
+
+Lemma nc_faithful : key_faithful idH (snaps nc_ops).
+Proof.
+  intros s1 s2 j1 j2 k d2 H1 H2 Hk [t2 Ht2] Hd2 Hkeq.
+  cbn [snaps nc_ops flat_map app] in H1, H2.
+  assert (Hj1 : j1 = 0 \/ j1 = 1 \/ j1 = 2).
+  { destruct H1 as [<-|[<-|[]]];
+      (destruct j1 as [|[|[|j1]]]; [auto | auto | auto |
+         unfold ideal_key_at, node_at in Hk; cbn [nc_s s_nodes nth_error] in Hk;
+         destruct j1; discriminate Hk]). }
+  assert (Hj2 : j2 = 0 \/ j2 = 1 \/ j2 = 2).
+  { destruct H2 as [<-|[<-|[]]];
+      (destruct j2 as [|[|[|j2]]]; [auto | auto | auto |
+         unfold node_at in Ht2; cbn [nc_s s_nodes nth_error] in Ht2; destruct j2; discriminate Ht2]). }
+  destruct H1 as [<-|[<-|[]]]; destruct H2 as [<-|[<-|[]]];
+    destruct Hj1 as [-> |[-> | ->]]; destruct Hj2 as [-> |[-> | ->]];
+    vm_compute in Hk; vm_compute in Hd2;
+    injection Hk as <-; injection Hd2 as <-;
+    try (exfalso; vm_compute in Hkeq; discriminate Hkeq);
+    (eexists; split; [vm_compute; reflexivity | split; [intros o c; reflexivity | reflexivity]]).
+Qed.
+
+Lemma nc_hist_ok : hist_ok idH nc_ops.
+Proof.
+  split; [|exact nc_faithful].
+  repeat (apply Forall_cons; [first [apply nc_src_ok | split; reflexivity | exact I]|]).
+  apply Forall_nil.
+Qed.
+
+Theorem c01_nocache_chain_nonvacuous :
+  exists (H : str -> str) ops cfg roots,
+    (forall a b, H a = H b -> a = b) /\ hist_ok H ops /\ cfg_ok cfg /\
+    (exists s t, In s (snaps ops) /\ In (NTarget t) (s_nodes s) /\ td_nocache t = true /\
+                 td_outs t <> [] /\ td_deps t <> []) /\
+    let y := run_history H ops in
+    let r := build H cfg (sy_src y) roots (sy_world y) (sy_cache y) in
+    map br_status (sy_log y) = [[TExecuted; TExecuted; TExecuted]; [TExecuted; TExecuted; TExecuted]] /\
+    br_status r = [THit; TExecuted; THit] /\ br_ok r = true.
+Proof.
+  exists idH, nc_ops, c_all, [2].
+  split; [exact idH_inj|]. split; [exact nc_hist_ok|]. split; [split; reflexivity|].
+  split.
+  { exists (nc_s (lit "1")), nc_b. split; [left; reflexivity|]. split; [right; left; reflexivity|].
+    split; [reflexivity|]. split; intro E; discriminate E. }
+  vm_compute. auto.
 Qed.
